@@ -1,6 +1,7 @@
 """Repository-specific tables (each entry confirmed by reading the code, one line of reason)
 and the factory that wires model + lite + deep interpreter together."""
 import ast
+import fnmatch
 
 from .model import Program, AnalysisError, norm_text, canon_text
 from .lite import Lite
@@ -22,7 +23,7 @@ INTERNAL_ASSERTS = {
     "ellipticcurve:PointJacobi.mul_add": "NAF digits are in {-1, 0, 1}: the else-branch after == 0 and < 0 tests is > 0",
     "ellipticcurve:Point.__init__": "legacy affine constructor: results of the group formulas lie on the curve (algebra, not decided here)",
     "ellipticcurve:Point.__add__": "both operands on the same curve: internal callers add a point to itself / its negation",
-    "ellipticcurve:Point.__mul__.<locals>.*": "the nested helper (leftmost_bit) is called with 3*e for e > 0",
+    "ellipticcurve:*leftmost_bit": "the bit-scanning helper of the legacy multiplication (nested in Point.__mul__ or wherever it is moved) is called with 3*e for e > 0",
     "numbertheory:factorization": "type precondition of a public helper outside every decoder cone",
     "numbertheory:phi": "deprecated helper outside every cone",
     "numbertheory:order_mod": "deprecated helper outside every cone",
@@ -49,10 +50,9 @@ VALUE_PRESERVING_WRITERS = {
 def internal_assert_reason(qname, node, fnode=None):
     if qname in INTERNAL_ASSERTS:
         return INTERNAL_ASSERTS[qname]
-    if ".<locals>." in qname:
-        k = qname.rsplit(".<locals>.", 1)[0] + ".<locals>.*"
-        if k in INTERNAL_ASSERTS:
-            return INTERNAL_ASSERTS[k]
+    for k, v in INTERNAL_ASSERTS.items():
+        if isinstance(k, str) and "*" in k and fnmatch.fnmatchcase(qname, k):
+            return v
     r = INTERNAL_ASSERTS.get((qname, norm_text(node.test)))
     if r is None and fnode is not None:
         # keys are written with local variable names replaced by `_`
@@ -94,7 +94,11 @@ class World(object):
         self.p = Program(config, pkg_dir)
         ia = {}
         for k, v in INTERNAL_ASSERTS.items():
-            if isinstance(k, str):
+            if isinstance(k, str) and "*" in k:
+                for f in self.p.all_funcs():
+                    if fnmatch.fnmatchcase(f.qname, k):
+                        ia[f.qname] = v
+            elif isinstance(k, str):
                 ia[k] = v
         self.lite = Lite(self.p, internal_asserts=ia, infeasible=INFEASIBLE)
         self._check_tables()
@@ -103,9 +107,9 @@ class World(object):
         # every table key must name an existing function: a stale table is an analysis error
         for k in list(INTERNAL_ASSERTS) + [q for q, _e in INFEASIBLE] + list(VALUE_PRESERVING_WRITERS):
             q = k if isinstance(k, str) else k[0]
-            if q.endswith(".<locals>.*"):
-                if not any(f.qname.startswith(q[:-1]) for f in self.p.all_funcs()):
-                    raise AnalysisError("table entry names a function without nested helpers: %s" % q)
+            if "*" in q:
+                if not any(fnmatch.fnmatchcase(f.qname, q) for f in self.p.all_funcs()):
+                    raise AnalysisError("table entry matches no function: %s" % q)
                 continue
             if self.p.func(q, required=False) is None:
                 raise AnalysisError("table entry names a vanished function: %s" % q)
